@@ -1,6 +1,7 @@
 """C14 — Operator, grid-function and potential algebra is coherent."""
 
 import ast
+import re as re_
 
 from .. import proto, roles
 from ..core import AnalysisError
@@ -440,6 +441,7 @@ def run(ctx):
     gf_algebra(ctx)
     space_hash(ctx)
     combinator_shapes(ctx)
+    dunder_algebra(ctx)
 
 
 def combinator_shapes(ctx):
@@ -498,3 +500,82 @@ def space_hash(ctx):
     re_ = [s for s in roles.stores(eqf.body, roles.Defs(eqf), lv=False) if s.op == "return"]
     eq_ok = len(re_) == 1 and re_[0].value.replace(" ", "") == "check_if_compatible(self,%s)" % arg_names(eqf)[1]
     r.check(cmp_ok and eq_ok, "equality by hash", SPC, cf.name, cf.lineno, "space equality", "== does not compare the hashes of the compatible representations (compare ok=%s, __eq__ forwards ok=%s)" % (cmp_ok, eq_ok))
+
+
+def dunder_algebra(ctx):
+    """Operator arithmetic of the four families: the dunder methods build the combinator that denotes the expression
+    written (operand order included), for a scalar and for an operator as the other operand."""
+    from .. import dispatch
+
+    r = ctx.rule("DUNDER-ALGEBRA", "A + B, -A, A - B, s*A, A*s, A*B, A @ B of boundary / blocked / potential / discrete operators construct the combinator denoting exactly that expression", 20)
+    A, B, s_ = NC.op("A"), NC.op("B"), NC.scalar("s")
+    fams = (
+        (BO, "BoundaryOperator", ("BoundaryOperator",)), (BL, "BlockedOperatorBase", ("BlockedOperatorBase",)),
+        (PO, "PotentialOperator", ("PotentialOperator",)), (DO, "_DiscreteOperatorBase", ("_DiscreteOperatorBase",)),
+    )
+    for rel, cls, bases in fams:
+        m = ctx.repo.mod(rel)
+        meths = {qn.split(".", 1)[1]: fn for qn, fn in m.functions.items() if qn.startswith(cls + ".") and qn.count(".") == 1}
+
+        def run(meth, other, depth=0):
+            """NC term of self.<meth>(other) where other is an NC term (scalar iff it has no operator letter)."""
+            if depth > 6 or meth not in meths:
+                raise AnalysisError("%s.%s: not analysable" % (cls, meth))
+            fn = meths[meth]
+            pa = arg_names(fn)
+            o = pa[1] if len(pa) > 1 else None
+            is_scalar = other is not None and all(not w for (sc, w) in other.t)
+            env = {}
+            if o:
+                for np_ in ("np", "_np"):
+                    env["%s.isscalar(%s)" % (np_, o)] = is_scalar
+                for b in bases:
+                    env["isinstance(%s, %s)" % (o, b)] = not is_scalar
+                env["isinstance(%s, GridFunction)" % o] = False
+                env["isinstance(%s, Iterable)" % o] = False
+                env["self._is_compatible(%s)" % o] = True
+            kind, node = dispatch.select(fn, env)
+            if kind != "return" or node is None:
+                raise AnalysisError("%s.%s does not return a value for %s operand" % (cls, meth, "a scalar" if is_scalar else "an operator"))
+            return term(node, {o: other} if o else {}, depth)
+
+        def term(n, loc, depth):
+            if isinstance(n, ast.Name):
+                if n.id == "self":
+                    return A
+                if n.id in loc:
+                    return loc[n.id]
+            if isinstance(n, ast.Constant) and isinstance(n.value, (int, float)) and n.value == int(n.value):
+                return NC.const(int(n.value))
+            if isinstance(n, ast.UnaryOp) and isinstance(n.op, ast.USub):
+                return NC.const(-1) * term(n.operand, loc, depth)
+            if isinstance(n, ast.Call):
+                f = unparse(n.func)
+                args = [term(a, loc, depth) for a in n.args]
+                short = f.split(".")[-1]
+                if re_.fullmatch(r"_?Scaled\w*", short) and len(args) == 2:
+                    return args[1] * args[0]
+                if re_.fullmatch(r"_?Sum\w*", short) and len(args) == 2:
+                    return args[0] + args[1]
+                if re_.fullmatch(r"_?Product\w*", short) and len(args) == 2:
+                    return args[0] * args[1]
+                if isinstance(n.func, ast.Attribute) and unparse(n.func.value) == "self" and n.func.attr in meths and len(args) == 1:
+                    return run(n.func.attr, args[0], depth + 1)
+            raise AnalysisError("%s: expression outside the term subset: %s" % (cls, unparse(n)[:60]))
+
+        cases = [("__add__", B, A + B), ("__sub__", B, A - B), ("__neg__", None, NC.const(-1) * A), ("__mul__", s_, s_ * A), ("__rmul__", s_, s_ * A)]
+        if cls != "PotentialOperator":
+            cases.append(("__mul__", B, A * B))
+        if "__matmul__" in meths:
+            cases.append(("__matmul__", s_, s_ * A))
+            if cls != "PotentialOperator":
+                cases.append(("__matmul__", B, A * B))
+        for meth, other, want in cases:
+            if meth not in meths:
+                continue
+            try:
+                got = run(meth, other)
+                ok, msg = got == want, "%s.%s(%s) builds %r, the expression denotes %r" % (cls, meth, "scalar" if other is s_ else "operator" if other is not None else "", got, want)
+            except AnalysisError as e:
+                ok, msg = False, str(e)
+            r.check(ok, "%s.%s %s" % (cls, meth, "(scalar)" if other is s_ else "(operator)" if other is not None else ""), rel, "%s.%s" % (cls, meth), meths[meth].lineno, "%s.%s %s" % (cls, meth, "scalar" if other is s_ else "operator"), msg)
